@@ -104,13 +104,13 @@ theorem powLoop_spec (n : Nat) (x : UG R) :
     ∀ (fuel r c : Nat) (acc : Option (UG R)) (m : Nat), r < fuel →
       (acc = none ∧ m = 0 ∨ ∃ m', m = m' + 1 ∧ acc = some (linPow n x m')) →
       0 < m + r →
-      powLoop n fuel r (linPow n x c) acc = some (linPow n x (m + r * (c + 1) - 1)) := by
+      powLoopG (UG.mul n) fuel r (linPow n x c) acc = some (linPow n x (m + r * (c + 1) - 1)) := by
   intro fuel
   induction fuel with
   | zero => intro r c acc m h; omega
   | succ fuel ih =>
     intro r c acc m hr hacc hpos
-    unfold powLoop
+    unfold powLoopG
     by_cases h0 : r = 0
     · subst h0
       rcases hacc with ⟨_, hm⟩ | ⟨m', hm, ha⟩
@@ -156,7 +156,7 @@ theorem powLoop_spec (n : Nat) (x : UG R) :
 /-- square-and-multiply returns the plain `k`-fold product under the product rule -/
 theorem powUG_eq_linPow (n : Nat) (x : UG R) (k : Nat) (hk : 0 < k) :
     powUG n x k = linPow n x (k - 1) := by
-  unfold powUG
+  unfold powUG powLoop
   have := powLoop_spec n x (k + 1) k 0 none 0 (by omega) (Or.inl ⟨rfl, rfl⟩) (by omega)
   simp only [linPow] at this
   rw [this]
